@@ -80,6 +80,9 @@ func (s *Sim) fire(t *timer) {
 			t.when += t.period
 		}
 		s.fireQ = append(s.fireQ, t)
+		if len(s.fireQ) > 100000 {
+			panic("simrt: fireQ overflow")
+		}
 		return
 	}
 	t.fired = true
@@ -135,7 +138,10 @@ func (s *Sim) fireNextTicker() {
 //go:norace
 func clockLoop() {
 	s := S
-	for {
+	for spin := 0; ; spin++ {
+		if spin > 10000000 {
+			panic("simrt: clock is spinning")
+		}
 		for len(s.fireQ) > 0 {
 			t := s.fireQ[0]
 			s.fireQ = s.fireQ[1:]
